@@ -226,6 +226,12 @@ def _run(rec, sim, case, M, L, binary, decl, path, srv, V):
         V('open-failed', 'could not open a session: %r' % (
             h.open_ticket.status,))
         return
+    if binary and srv in ('T', 'A') and (L + M) % 2 == 0:
+        # a driver may hand binary frames over as a mutable buffer; the
+        # limit applies to those like to any other frame
+        rec.count('binary_frames_as_bytearray')
+        sim.raw_bytearray = True
+        frame = bytearray(frame)
     n0 = len(sim.events)
     if (L + 2 * M) % 3 == 0 and path in ('ws-first', 'ws-steady'):
         # the peer drains slowly just then: whatever the server writes in
